@@ -130,6 +130,7 @@ type Node struct {
 	FailPreBlock  int // fail the next k ProcessPreBlock calls
 	FailBlock     int // fail the next k ProcessBlock calls (anti-MEV heights only)
 	NilBlock      bool
+	LaxVerify     bool // the verification callbacks do not check that the block carries the transactions its header names
 	RMsgOrder     func(n int) []int
 	Requested     []H // every hash asked for through RequestTx since the last Start/Reset
 
@@ -249,7 +250,7 @@ func (n *Node) build() {
 						ok = false
 					}
 				}
-				if !bodyComplete(bb.txs, bb.Rec.Txs) { // an application cannot verify a block some of whose transactions it was not given
+				if !n.LaxVerify && !bodyComplete(bb.txs, bb.Rec.Txs) { // an application cannot verify a block some of whose transactions it was not given (a lax one does not look)
 					ok = false
 				}
 				if ok {
@@ -341,7 +342,7 @@ func (n *Node) build() {
 							ok = false
 						}
 					}
-					if !bodyComplete(bb.txs, bb.Rec.Txs) {
+					if !n.LaxVerify && !bodyComplete(bb.txs, bb.Rec.Txs) {
 						ok = false
 					}
 					if ok {
